@@ -100,9 +100,7 @@ def int_len(ex, items) -> object:
 
 
 def usize_of_int(ex, e) -> BV:
-    if ex.int_mode:
-        return BV(e, 64, False)
-    return BV(z3.Int2BV(e, 64), 64, False)
+    return BV(e, 64, False)
 
 
 # ---------------------------------------------------------------------------------------------
@@ -375,6 +373,12 @@ def _opt_unwrap_or(ex, st, c, args, dty):
     return v.fields[0] if v.variant == "Some" else args[1]
 
 
+@reg("Result::unwrap_or")
+def _res_unwrap_or(ex, st, c, args, dty):
+    v = args[0]
+    return v.fields[0] if v.variant == "Ok" else args[1]
+
+
 @reg_pred(lambda c: c.trait is not None and _type_head(c.trait) in ("FnOnce", "FnMut", "Fn") and c.method in ("call_once", "call_mut", "call"))
 def _fn_call(ex, st, c, args, dty):
     a = args[1]
@@ -558,7 +562,7 @@ def _try_convert(ex, st, v, dst):
     else:
         raise Unsupported(f"TryInto<{dst}> of {type(v).__name__}")
     fits = z3.And(x >= lo, x <= hi)
-    val = BV(x, bits, signed) if ex.int_mode else BV(z3.Int2BV(x, bits), bits, signed)
+    val = BV(x, bits, signed)  # int-flavoured machine integer (value known to be in range on this path)
     return [(fits, Adt("Result", "Ok", (val,))), (z3.Not(fits), Adt("Result", "Err", (Adt("TryFromBigIntError", None, ()),)))]
 
 
@@ -697,7 +701,7 @@ def _to_prim(bits, signed):
         a = as_big(ex, st, args[0]).e
         lo, hi = ex.range_of(bits, signed)
         fits = z3.And(a >= lo, a <= hi)
-        val = BV(a, bits, signed) if ex.int_mode else BV(z3.Int2BV(a, bits), bits, signed)
+        val = BV(a, bits, signed)
         return [(fits, Adt("Option", "Some", (val,))), (z3.Not(fits), Adt("Option", "None", ()))]
     return h
 
@@ -891,6 +895,8 @@ def _slice_range(ex, st, rr, items, rng: Adt):
 @reg("[T]::to_vec", "slice::to_vec")
 def _to_vec(ex, st, c, args, dty):
     items = items_of(ex, st, args[0])
+    if isinstance(items, Str):
+        items = Bytes(items.s)
     return VecV(items)
 
 
@@ -976,7 +982,7 @@ def _checked_mul(ex, st, c, args, dty):
 def _sat(ex, a: BV, r_int):
     lo, hi = ex.range_of(a.bits, a.signed)
     e = z3.If(r_int < lo, z3.IntVal(lo), z3.If(r_int > hi, z3.IntVal(hi), r_int))
-    return BV(e, a.bits, a.signed) if ex.int_mode else BV(z3.Int2BV(e, a.bits), a.bits, a.signed)
+    return BV(e, a.bits, a.signed)
 
 
 @_int_method("saturating_add")
@@ -1060,13 +1066,12 @@ def _panic(ex, st, c, args, dty):
 
 
 # fmt: arguments are opaque; a panic message's text is not part of any property
-@reg("Arguments::new", "Arguments::new_const", "Arguments::new_v1", "Arguments::from_str", "Argument::new_display",
-     "Argument::new_debug", "Arguments::new_v1_formatted", "Argument::new_lower_hex", "rt::Argument::new_display")
+@reg("Arguments::new_v1", "Arguments::new_v1_formatted")
 def _fmt_args(ex, st, c, args, dty):
     return fresh_obj("fmtargs", "Arguments")
 
 
-@reg("fmt::format", "fmt::format::format_inner", "<T as ToString>::to_string", "<str as ToString>::to_string", "<String as ToString>::to_string")
+@reg("fmt::format::format_inner", "<T as ToString>::to_string")
 def _fmt_format(ex, st, c, args, dty):
     return fresh_obj("string", "String")
 
@@ -1098,3 +1103,430 @@ def _range_next(ex, st, c, args, dty):
         write_through(ex, s, r, Adt("Range", None, (nxt, end)))
         return Adt("Option", "Some", (start,))
     return [(lt, Effect(adv)), (z3.Not(lt), Adt("Option", "None", ()))]
+
+
+# ---------------------------------------------------------------------------------------------
+# iterators over slices / vectors (eager model: an iterator *is* the remaining sequence)
+#   LibV('iter', (items,))            items: Bytes | Arr | SymSeq ; yields elements (by value; refs to scalars are the scalars)
+#   LibV('map', (iter, closure))      lazily mapped
+
+
+def _mk_iter(items):
+    return LibV("iter", (items,))
+
+
+def _iter_items(ex, st, v):
+    v = deref(ex, st, v)
+    if isinstance(v, LibV) and v.kind == "iter":
+        return v.data[0]
+    if isinstance(v, VecV):
+        return v.items
+    if isinstance(v, (Arr, Bytes, SymSeq)):
+        return v
+    raise Unsupported(f"not an iterator: {type(v).__name__}")
+
+
+@reg("[T]::iter", "Vec::iter", "[T]::iter_mut")
+def _slice_iter(ex, st, c, args, dty):
+    return _mk_iter(items_of(ex, st, args[0]))
+
+
+@reg_pred(lambda c: c.trait is not None and _type_head(c.trait) == "IntoIterator" and c.method == "into_iter")
+def _into_iter(ex, st, c, args, dty):
+    v = deref(ex, st, args[0])
+    if isinstance(v, LibV):
+        return v
+    if isinstance(v, Adt) and v.ty in ("Range",):
+        return v
+    return _mk_iter(_iter_items(ex, st, v))
+
+
+@reg_pred(lambda c: c.trait is not None and _type_head(c.trait) == "Iterator" and c.method in ("copied", "cloned", "by_ref"))
+def _iter_copied(ex, st, c, args, dty):
+    return args[0]
+
+
+def _nat(ex, v: BV):
+    return ex.to_int_expr(v)
+
+
+@reg_pred(lambda c: c.trait is not None and _type_head(c.trait) == "Iterator" and c.method == "skip")
+def _iter_skip(ex, st, c, args, dty):
+    it = args[0]
+    if isinstance(it, LibV) and it.kind == "iter":
+        items = it.data[0]
+        n = _nat(ex, args[1])
+        if isinstance(items, Bytes):
+            L = z3.Length(items.s)
+            k = z3.If(n > L, L, n)
+            return _mk_iter(Bytes(z3.SubSeq(items.s, k, L - k)))
+        if isinstance(items, Arr):
+            ns = z3.simplify(n)
+            if is_concrete(ns):
+                return _mk_iter(Arr(items.elems[min(ns.as_long(), len(items.elems)):]))
+            cases = []
+            for k in range(len(items.elems)):
+                cases.append((n == k, _mk_iter(Arr(items.elems[k:]))))
+            cases.append((n >= len(items.elems), _mk_iter(Arr(()))))
+            return cases
+    raise Unsupported("skip on this iterator")
+
+
+@reg_pred(lambda c: c.trait is not None and _type_head(c.trait) == "Iterator" and c.method == "take")
+def _iter_take(ex, st, c, args, dty):
+    it = args[0]
+    if isinstance(it, LibV) and it.kind == "iter":
+        items = it.data[0]
+        n = _nat(ex, args[1])
+        if isinstance(items, Bytes):
+            L = z3.Length(items.s)
+            k = z3.If(n > L, L, n)
+            return _mk_iter(Bytes(z3.SubSeq(items.s, 0, k)))
+        if isinstance(items, Arr):
+            ns = z3.simplify(n)
+            if is_concrete(ns):
+                return _mk_iter(Arr(items.elems[:ns.as_long()]))
+            cases = []
+            for k in range(len(items.elems)):
+                cases.append((n == k, _mk_iter(Arr(items.elems[:k]))))
+            cases.append((n >= len(items.elems), _mk_iter(items)))
+            return cases
+    raise Unsupported("take on this iterator")
+
+
+@reg_pred(lambda c: c.trait is not None and _type_head(c.trait) == "Iterator" and c.method == "chain")
+def _iter_chain(ex, st, c, args, dty):
+    a = _iter_items(ex, st, args[0])
+    b = _iter_items(ex, st, args[1])
+    if isinstance(a, Bytes) and isinstance(b, Bytes):
+        return _mk_iter(Bytes(z3.Concat(a.s, b.s)))
+    if isinstance(a, Arr) and isinstance(b, Arr):
+        return _mk_iter(Arr(a.elems + b.elems))
+    raise Unsupported("chain of mixed iterators")
+
+
+@reg_pred(lambda c: c.trait is not None and _type_head(c.trait) == "Iterator" and c.method == "rev")
+def _iter_rev(ex, st, c, args, dty):
+    a = _iter_items(ex, st, args[0])
+    if isinstance(a, Arr):
+        return _mk_iter(Arr(tuple(reversed(a.elems))))
+    raise Unsupported("rev on symbolic-length iterator")
+
+
+@reg_pred(lambda c: c.trait is not None and _type_head(c.trait) == "Iterator" and c.method == "enumerate")
+def _iter_enumerate(ex, st, c, args, dty):
+    a = _iter_items(ex, st, args[0])
+    if isinstance(a, Arr):
+        return _mk_iter(Arr(tuple(Tup((ex.mk_int(i, 64, False), e)) for i, e in enumerate(a.elems))))
+    raise Unsupported("enumerate on symbolic-length iterator")
+
+
+@reg_pred(lambda c: c.trait is not None and _type_head(c.trait) == "Iterator" and c.method == "zip")
+def _iter_zip(ex, st, c, args, dty):
+    a = _iter_items(ex, st, args[0])
+    b = _iter_items(ex, st, args[1])
+    a, b = _as_arr(a), _as_arr(b)
+    n = min(len(a.elems), len(b.elems))
+    return _mk_iter(Arr(tuple(Tup((x, y)) for x, y in zip(a.elems[:n], b.elems[:n]))))
+
+
+def _as_arr(items) -> Arr:
+    if isinstance(items, Arr):
+        return items
+    raise Unsupported("iterator adapter needs a concrete-length sequence (enumerate lengths in the obligation)")
+
+
+@reg_pred(lambda c: c.trait is not None and _type_head(c.trait) == "Iterator" and c.method == "map")
+def _iter_map(ex, st, c, args, dty):
+    return LibV("map", (args[0], args[1]))
+
+
+def _force_iter(ex, st, it):
+    """-> Forked-style list [(State, Arr|Bytes)] of the fully evaluated element sequence."""
+    it = deref(ex, st, it)
+    if isinstance(it, LibV) and it.kind == "iter":
+        return [(st, it.data[0])]
+    if isinstance(it, LibV) and it.kind == "map":
+        res = []
+        for s0, items in _force_iter(ex, st, it.data[0]):
+            items = _as_arr(items)
+            partial = [(s0, [])]
+            for e in items.elems:
+                nxt = []
+                for s1, acc in partial:
+                    for s2, r in call_closure(ex, s1, it.data[1], [e]):
+                        if isinstance(r, Panic):
+                            nxt.append((s2, r))
+                        else:
+                            nxt.append((s2, acc + [r]))
+                partial = []
+                for s2, acc in nxt:
+                    if isinstance(acc, Panic):
+                        res.append((s2, acc))
+                    else:
+                        partial.append((s2, acc))
+            for s1, acc in partial:
+                res.append((s1, Arr(tuple(acc))))
+        return res
+    if isinstance(it, VecV):
+        return [(st, it.items)]
+    raise Unsupported(f"cannot evaluate iterator {it!r}"[:120])
+
+
+def _collect_items(dty, items, targs):
+    want_u8 = "Vec<u8>" in dty.replace("std::vec::", "").replace("alloc::vec::", "") or any(t.replace("std::vec::", "") == "Vec<u8>" for t in targs)
+    if isinstance(items, Arr) and want_u8:
+        units = [z3.Unit(e.e if not z3.is_int(e.e) else z3.Int2BV(e.e, 8)) for e in items.elems]
+        s = z3.Concat(*units) if len(units) > 1 else (units[0] if units else z3.Empty(ByteSeq))
+        return VecV(Bytes(s))
+    return VecV(items)
+
+
+@reg_pred(lambda c: (c.trait is not None and _type_head(c.trait) in ("Iterator", "Itertools") and c.method in ("collect", "collect_vec")))
+def _iter_collect(ex, st, c, args, dty):
+    cases = _force_iter(ex, st.clone(), args[0])
+    return Forked([(s, r if isinstance(r, Panic) else _collect_items(dty, r, c.targs)) for s, r in cases])
+
+
+@reg_pred(lambda c: c.trait is not None and _type_head(c.trait) == "Extend" and c.method == "extend")
+def _vec_extend(ex, st, c, args, dty):
+    r = args[0]
+    v = deref1(ex, st, r)
+    add = _iter_items(ex, st, args[1])
+    it = v.items
+    if isinstance(it, Bytes) and isinstance(add, Bytes):
+        nv = VecV(Bytes(z3.Concat(it.s, add.s)))
+    elif isinstance(it, Arr) and isinstance(add, Arr):
+        nv = VecV(Arr(it.elems + add.elems))
+    elif isinstance(it, Arr) and not it.elems:
+        nv = VecV(add)
+    elif isinstance(it, Bytes) and isinstance(add, Arr):
+        units = [z3.Unit(e.e if not z3.is_int(e.e) else z3.Int2BV(e.e, 8)) for e in add.elems]
+        nv = VecV(Bytes(z3.Concat(it.s, *units))) if units else v
+    else:
+        raise Unsupported("extend of mixed sequences")
+    write_through(ex, st, r, nv)
+    return UNIT
+
+
+@reg("Vec::append")
+def _vec_append(ex, st, c, args, dty):
+    r, o = args[0], args[1]
+    v, w = deref1(ex, st, r), deref1(ex, st, o)
+    a, b = v.items, w.items
+    if isinstance(a, Bytes) and isinstance(b, Bytes):
+        nv = VecV(Bytes(z3.Concat(a.s, b.s)))
+        empty = VecV(Bytes(z3.Empty(ByteSeq)))
+    elif isinstance(a, Arr) and isinstance(b, Arr):
+        nv = VecV(Arr(a.elems + b.elems))
+        empty = VecV(Arr(()))
+    else:
+        raise Unsupported("append of mixed sequences")
+    write_through(ex, st, r, nv)
+    write_through(ex, st, o, empty)
+    return UNIT
+
+
+@reg("<Vec as PartialEq>::eq", "<[T] as PartialEq>::eq", "<Vec as PartialEq>::ne")
+def _vec_eq(ex, st, c, args, dty):
+    a, b = items_of(ex, st, args[0]), items_of(ex, st, args[1])
+    if isinstance(a, Bytes) and isinstance(b, Bytes):
+        e = a.s == b.s
+        return BoolV(z3.Not(e) if c.method == "ne" else e)
+    raise Unsupported("vec eq on non-bytes")
+
+
+# ---------------------------------------------------------------------------------------------
+# structural equality (derived PartialEq on project/library data types)
+
+
+def struct_eq(ex, st, a, b):
+    a, b = deref(ex, st, a), deref(ex, st, b)
+    if isinstance(a, BoxV) and isinstance(b, BoxV):
+        return struct_eq(ex, st, a.inner, b.inner)
+    if isinstance(a, BV) and isinstance(b, BV):
+        return ex.binop("Eq", a, b).e
+    if isinstance(a, BoolV) and isinstance(b, BoolV):
+        return a.e == b.e
+    if isinstance(a, BigI) and isinstance(b, BigI):
+        return a.e == b.e
+    if isinstance(a, (Bytes, Str)) and isinstance(b, (Bytes, Str)):
+        return a.s == b.s
+    if isinstance(a, Opaque) and isinstance(b, Opaque):
+        return a.e == b.e
+    if isinstance(a, VecV) and isinstance(b, VecV):
+        return struct_eq(ex, st, a.items, b.items)
+    if isinstance(a, Arr) and isinstance(b, Arr):
+        if len(a.elems) != len(b.elems):
+            return z3.BoolVal(False)
+        return z3.And([struct_eq(ex, st, x, y) for x, y in zip(a.elems, b.elems)] + [z3.BoolVal(True)])
+    if isinstance(a, Tup) and isinstance(b, Tup) and len(a.fields) == len(b.fields):
+        return z3.And([struct_eq(ex, st, x, y) for x, y in zip(a.fields, b.fields)] + [z3.BoolVal(True)])
+    if isinstance(a, Adt) and isinstance(b, Adt):
+        if a.ty != b.ty or a.variant != b.variant or len(a.fields) != len(b.fields):
+            return z3.BoolVal(False)
+        return z3.And([struct_eq(ex, st, x, y) for x, y in zip(a.fields, b.fields)] + [z3.BoolVal(True)])
+    if isinstance(a, EnumSym) or isinstance(b, EnumSym):
+        return ex.disc_of(a).e == ex.disc_of(b).e
+    raise Unsupported(f"structural equality of {type(a).__name__} and {type(b).__name__}")
+
+
+@reg_pred(lambda c: c.trait is not None and _type_head(c.trait) == "PartialEq" and c.method in ("eq", "ne"))
+def _generic_eq(ex, st, c, args, dty):
+    e = struct_eq(ex, st, args[0], args[1])
+    return BoolV(z3.Not(e) if c.method == "ne" else e)
+
+
+# ---------------------------------------------------------------------------------------------
+# String / str  (modelled as their UTF-8 byte sequence)
+
+
+@reg("String::as_bytes", "str::as_bytes", "String::as_str", "<String as Deref>::deref", "<String as AsRef>::as_ref", "String::as_mut_str")
+def _string_as_bytes(ex, st, c, args, dty):
+    return args[0]
+
+
+@reg("String::len", "str::len")
+def _string_len(ex, st, c, args, dty):
+    return ex.len_of(st, args[0])
+
+
+@reg("String::new")
+def _string_new(ex, st, c, args, dty):
+    return Str(z3.Empty(ByteSeq))
+
+
+@reg("<str as ToString>::to_string", "<String as ToString>::to_string", "<str as ToOwned>::to_owned", "str::to_owned", "<String as From>::from", "String::from")
+def _str_to_string(ex, st, c, args, dty):
+    v = deref(ex, st, args[0])
+    if isinstance(v, Str):
+        return v
+    return fresh_obj("string", "String")
+
+
+@reg("must_use")
+def _must_use(ex, st, c, args, dty):
+    return args[0]
+
+
+def _fmt_arg(kind):
+    def h(ex, st, c, args, dty):
+        return LibV("fmtarg", (kind, args[0]))
+    return h
+
+
+TABLE["Argument::new_display"] = _fmt_arg("display")
+TABLE["Argument::new_debug"] = _fmt_arg("debug")
+TABLE["Argument::new_lower_hex"] = _fmt_arg("hex")
+
+
+@reg("Arguments::new")
+def _fmt_arguments_new(ex, st, c, args, dty):
+    tmpl = deref(ex, st, args[0])
+    a = deref(ex, st, args[1])
+    return LibV("fmtargs", (tmpl, a))
+
+
+@reg("Arguments::from_str", "Arguments::new_const")
+def _fmt_arguments_from_str(ex, st, c, args, dty):
+    return LibV("fmtargs", (deref(ex, st, args[0]), Arr(())))
+
+
+def _concrete_bytes(seq) -> Optional[bytes]:
+    s = z3.simplify(seq)
+    out = []
+
+    def walk(e):
+        if z3.is_app(e) and e.decl().kind() == z3.Z3_OP_SEQ_CONCAT:
+            return all(walk(c) for c in e.children())
+        if z3.is_app(e) and e.decl().kind() == z3.Z3_OP_SEQ_UNIT:
+            b = z3.simplify(e.arg(0))
+            if z3.is_bv_value(b):
+                out.append(b.as_long())
+                return True
+            return False
+        if z3.is_app(e) and e.decl().kind() == z3.Z3_OP_SEQ_EMPTY:
+            return True
+        return False
+    return bytes(out) if walk(s) else None
+
+
+@reg("fmt::format")
+def _fmt_format2(ex, st, c, args, dty):
+    fa = args[0]
+    if isinstance(fa, LibV) and fa.kind == "fmtargs":
+        tmpl, fargs = fa.data
+        tb = _concrete_bytes(tmpl.s) if isinstance(tmpl, (Bytes, Str)) else None
+        if tb is not None and isinstance(fargs, Arr):
+            parts = []
+            i = 0
+            ai = 0
+            ok = True
+            while i < len(tb):
+                b = tb[i]
+                if b == 0:
+                    break
+                if b < 0x80:
+                    parts.append(bytes_lit(tb[i + 1:i + 1 + b]))
+                    i += 1 + b
+                elif b == 0xC0:
+                    if ai >= len(fargs.elems):
+                        ok = False
+                        break
+                    a = fargs.elems[ai]
+                    ai += 1
+                    v = deref(ex, st, a.data[1]) if isinstance(a, LibV) else None
+                    if isinstance(v, Str) and a.data[0] == "display":
+                        parts.append(v.s)
+                    else:
+                        ok = False
+                        break
+                    i += 1
+                else:
+                    ok = False
+                    break
+            if ok:
+                if not parts:
+                    return Str(z3.Empty(ByteSeq))
+                return Str(z3.Concat(*parts) if len(parts) > 1 else parts[0])
+    return fresh_obj("string", "String")
+
+
+@reg("str::starts_with", "String::starts_with")
+def _str_starts_with(ex, st, c, args, dty):
+    s = deref(ex, st, args[0])
+    p = args[1]
+    if isinstance(s, Str) and isinstance(p, BV):
+        pe = z3.simplify(p.e)
+        if is_concrete(pe) and pe.as_long() < 0x80:
+            return BoolV(z3.PrefixOf(z3.Unit(z3.BitVecVal(pe.as_long(), 8)), s.s))
+    raise Unsupported("starts_with pattern")
+
+
+@reg("str::split_at", "String::split_at")
+def _str_split_at(ex, st, c, args, dty):
+    s = deref(ex, st, args[0])
+    n = ex.to_int_expr(args[1])
+    L = z3.Length(s.s)
+    ok = z3.And(n >= 0, n <= L)
+    a, b = Str(z3.SubSeq(s.s, 0, n)), Str(z3.SubSeq(s.s, n, L - n))
+    return [(ok, Effect(lambda sx: Tup((ex.alloc(sx, a, False), ex.alloc(sx, b, False))))), (z3.Not(ok), Panic("split_at out of bounds"))]
+
+
+@reg("String::from_utf8")
+def _string_from_utf8(ex, st, c, args, dty):
+    v = deref(ex, st, args[0])
+    it = v.items if isinstance(v, VecV) else v
+    if not isinstance(it, Bytes):
+        raise Unsupported("from_utf8 of non-bytes")
+    valid = valid_utf8()(it.s)
+    return [(valid, Adt("Result", "Ok", (Str(it.s),))), (z3.Not(valid), Adt("Result", "Err", (fresh_obj("utf8err", "FromUtf8Error"),)))]
+
+
+_valid = []
+
+
+def valid_utf8():
+    if not _valid:
+        _valid.append(z3.Function("valid_utf8", ByteSeq, z3.BoolSort()))
+    return _valid[0]
